@@ -76,7 +76,7 @@ RECURSIVE SetToSeqW(_)
 SetToSeqW(X) == IF X = {} THEN <<>> ELSE LET x == CHOOSE y \in X : TRUE IN <<x>> \o SetToSeqW(X \ {x})
 NudgeSeq(m) == LET M == Meshes[m] IN SetToSeqW({x \in NudgeSet(m) : JudgedEps(M.S, M.tris, x[1], x[2])})
 NudgeCases == {[kind |-> "nudge", mesh |-> m, batch |-> b] : m \in {"fan", "quad"}, b \in {0, 1, 3, 7}}
-TpsCases == {[kind |-> "tps", mesh |-> m, kernel |-> k, msv |-> v] : m \in DOMAIN Meshes, k \in {"default", "R2LogR2RBF", "R2LogRRBF"}, v \in {"default", "1e-3"}}
+TpsCases == {[kind |-> "tps", mesh |-> m, kernel |-> k, msv |-> v] : m \in DOMAIN Meshes, k \in {"default", "R2LogR2RBF", "R2LogRRBF"}, v \in {"default", "1e-3", "0"}}
 Cases == (IF "pwa" \in Kinds THEN PwaCases ELSE {}) \cup (IF "mask" \in Kinds THEN MaskCases \cup NudgeCases ELSE {}) \cup (IF "tps" \in Kinds THEN TpsCases ELSE {})
 MaskPts(m, mk) == LET M == Meshes[m] ins == InPts(M.S, M.tris) IN [i \in 1..5 |-> IF mk[i] THEN ins[2*i] ELSE OutPtsOf(m)[((i-1) % 4) + 1]]
 Out(c) ==
